@@ -1,5 +1,5 @@
 """Per-property wording for MANIFEST.json (levels, trusted base, technique)."""
-HOOK_COMMITS = ["c788236", "540187a", "a1185f5"]
+HOOK_COMMITS = ["c788236", "540187a", "a1185f5", "14d2ccf"]
 NOT_APPLICABLE = {}
 
 NOTE_COMMON = ("Trusted: Eigen 3.4 dense solvers in long double as reference, the sanitizer runtimes (a positive-control canary is run "
@@ -17,7 +17,9 @@ TEXT = {
         level_text="Exhaustive sweep of all 2^31-2 generator states and all library seed forms against an independent 64-bit reference of the "
                    "Park-Miller recurrence (plain build; subsampled again under ASan+UBSan), orbit length, draw ranges for six scalar types, "
                    "the stream of one generator object under mixed groupings of random() / random_vec() calls, a third build with g++ (behaviour the standard leaves to the compiler), "
-                   "plus a purity monitor (thread / process / heap-history digests, ltrace+strace showing no RNG, clock or entropy call).",
+                   "plus a purity monitor (thread / process / heap-history digests, ltrace+strace showing no RNG, clock or entropy call) whose target runs every site where the library draws random numbers "
+                   "(default init() of both solver bases, the complex-shift probe vector, expand_basis first and later tries; reach is reported and required), and a solver-level stream oracle: a recording "
+                   "operator sees the default start vector (stream of seed 0) and every first-try restart vector (stream of seed 2i).",
         design_ref="DESIGN.md section 3, C19",
         level_note=NOTE_COMMON + " Platform independence is only observed on this machine.",
         technique="exhaustive runtime comparison with a reference recurrence + ltrace/strace purity monitor"),
@@ -25,17 +27,19 @@ TEXT = {
         level_text="Exploration by direct calls of the three QR helper classes on ~43k (quick) generated Hessenberg/tridiagonal matrices per run "
                    "(all subdiagonal zero masks for n<=8, exact-eigenvalue and diagonal-entry shifts, graded, deflated, extreme scalings, 3 scalar types) under ASan+UBSan; "
                    "every documented identity (Q orthogonal, QR=H-sI, R exactly triangular, Q'HQ value and exact shape, each apply_* overload incl. Map and strided block, "
-                   "double-shift first column) judged in long double against 64*n*eps*(||H||+|s|).",
+                   "double-shift first column; output arguments that are empty, already n x n with other content, or of another size) judged in long double against 64*n*eps*(||H||+|s|).",
         design_ref="DESIGN.md section 3, C08",
         level_note=NOTE_COMMON,
         technique="runtime oracle (extended-precision identities) over generated inputs, ASan+UBSan build"),
     "C09": dict(
         level_text="Exploration by direct calls of TridiagEigen, UpperHessenbergSchur and UpperHessenbergEigen on ~27k (quick) generated matrices per run, sizes 2..64, "
                    "twelve entry classes incl. defective, companion, repeated, zero and 1e+-150-scaled input, 3 scalar types, under ASan+UBSan; backward-error identities, "
-                   "exact structural conventions (quasi-triangular T, exact zero imaginary parts / adjacent exact conjugate pairs) and trace power sums judged in long double.",
+                   "exact structural conventions (quasi-triangular T, exact zero imaginary parts / adjacent exact conjugate pairs) and trace power sums judged in long double. "
+                   "The iteration-limit clause is observed through a guarded failpoint that lowers the limit (~6700 give-ups per quick run on new and reused objects): std::runtime_error and nothing else, "
+                   "a compute() that returns normally equals an unlimited run bit for bit, no numbers from the accessors after a failed compute(), bitwise recovery.",
         design_ref="DESIGN.md section 3, C09",
         level_note=NOTE_COMMON + " A std::runtime_error on a finite input is reported (the reference solver converges on every generated class).",
-        technique="runtime oracle (extended-precision identities + exact structure tests) over generated inputs, ASan+UBSan build"),
+        technique="runtime oracle (extended-precision identities + exact structure tests) over generated inputs + failpoint-driven monitor of the iteration-limit path, ASan+UBSan build"),
     "C10": dict(
         level_text="Exploration by direct calls of BKLDLT (and the dense wrappers built on it) on ~24k (quick) scenarios per run: sizes 1..80, eight matrix classes, shifts equal/near "
                    "diagonal entries, every triangle x storage order x plain/Map/block/expression presentation with the unused triangle set to NaN, structurally singular inputs and "
@@ -47,7 +51,8 @@ TEXT = {
         level_text="Exploration: ~7000 (quick) random init()/compute() histories per run on the seven symmetric/Hermitian solver configurations in float/double/long double under ASan+UBSan; "
                    "after EVERY compute() whatever the accessors hand back is judged in long double (unit norm, residual against tol*scale + rounding with the back-transformed scale in shift mode, "
                    "orthonormality). The seeded exploration draws from the domain on which the repaired tree is clean; a fixed seed-independent corpus covers the finding-prone domain "
-                   "(breakdown-prone classes, far-from-unit scales, tiny problems) and its failing members are listed one by one in known_findings.json.",
+                   "(breakdown-prone classes, far-from-unit scales, tiny problems; second part: the well-behaved classes at norms 1e-12..1e-3 and 1e3..1e8 with tolerances 1e-11..1e-14 and runs of up to "
+                   "1000 restarts) and its failing members are listed one by one in known_findings.json.",
         design_ref="DESIGN.md sections 3 (C01) and 4",
         level_note=NOTE_COMMON,
         technique="runtime oracle (extended-precision residual / orthonormality monitor at the public accessors) over seeded histories + fixed regression corpus, ASan+UBSan build"),
@@ -67,7 +72,7 @@ TEXT = {
         technique="runtime API-consistency monitor with counting operator wrapper and factorization hook events, ASan+UBSan build; valgrind memcheck on the same driver"),
     "C06": dict(
         level_text="Exploration: history checker comparing, bit for bit, the observed init(v); compute(args) on a fresh solver, on a solver reused after a random pre-history (incl. non-converging and "
-                   "throwing computes - thrown at once, and thrown late: an unsupported sorting rule is rejected only after the iteration) and on a second solver sharing the operator object; operator probed "
+                   "throwing computes - thrown at once, thrown late: an unsupported sorting rule is rejected only after the iteration, and thrown from the inside: a dense eigen kernel that gives up at a guarded failpoint) and on a second solver sharing the operator object; operator probed "
                    "with a fixed vector before/after compute() and after every step of the pre-history; every sampled case run again alone in a fresh process (digest comparison with the run inside the worker's sequence). 3000 (quick) triples over 17 configurations.",
         design_ref="DESIGN.md section 3, C06",
         level_note=NOTE_COMMON + " Davidson / PartialSVD reuse is covered by C15 / C16.",
@@ -75,7 +80,7 @@ TEXT = {
     "C13": dict(
         level_text="Exploration under two sanitizer builds (Eigen assertions on / release-like): ~4500 hostile runs per build and tier over 17 solver configurations + PartialSVD with degenerate matrices, "
                    "validating operator wrapper, operator-application bound plus a CPU-seconds budget per case for loops that apply no operator (30 CPU-s where cases take milliseconds; confirmed by "
-                   "re-running the case alone), finiteness/exception classifier; plus a small-scope enumeration (~12000 states quick) of the private restart bookkeeping "
+                   "re-running the case alone), finiteness/exception classifier, every hostile case once more with a dense eigen kernel failing at a guarded failpoint (documented exception type or finite results, ~4000 injected failures per build); plus a small-scope enumeration (~12000 states quick) of the private restart bookkeeping "
                    "(nev_adjusted + the real restart) through guarded friend access for every ncv <= 10 (14 thorough).",
         design_ref="DESIGN.md section 3, C13",
         level_note=NOTE_COMMON + " Buckling mode with a singular K_G (eigenvalues at infinity) is outside the documented domain and not generated.",
@@ -147,8 +152,8 @@ TEXT = {
         level_note=NOTE_COMMON,
         technique="runtime oracle (dense reference SVD, extended-precision factor identities, bitwise fresh-vs-reused comparison) over generated inputs + fixed regression corpus, ASan+UBSan build"),
     "C17": dict(
-        level_text="Exploration: 480 (quick) / 10000 (thorough) LOBPCG runs on pencils with prescribed well-separated smallest eigenvalues, with/without B and preconditioner, block sizes incl. the rejected "
-                   "ones; on reported success every clause of the statement is judged against a dense generalized reference, and residuals() is checked against the private iterate read through the guarded friend.",
+        level_text="Exploration: 4000 (quick) / 40000 (thorough) LOBPCG runs on pencils with prescribed well-separated smallest eigenvalues (positive and indefinite A), with/without B and preconditioner, block sizes incl. the rejected "
+                   "ones, cold starts and warm starts (the wanted eigenvectors in descending order, a rotated basis of their span, perturbed; maxit from 0); on reported success every clause of the statement is judged against a dense generalized reference, and residuals() is checked against the private iterate read through the guarded friend.",
         design_ref="DESIGN.md section 3, C17",
         level_note=NOTE_COMMON + " UBSan's null / pointer-overflow checks are off in this driver (Eigen-internal empty sparse products).",
         technique="runtime oracle (dense generalized reference, residual identity through guarded friend access) over generated inputs, ASan+UBSan build"),
